@@ -4,6 +4,7 @@ import (
 	"reflect"
 
 	"github.com/xjslang/xjs/ast"
+	"github.com/xjslang/xjs/token"
 )
 
 // walkAST visits every ast.Node reachable from root (pre-order), parents first.
@@ -53,4 +54,41 @@ func walkAST(root interface{}, visit func(n ast.Node, parent ast.Node, field str
 		}
 	}
 	rec(reflect.ValueOf(root), nil, "")
+}
+
+// astTokens returns every token stored in the tree, in depth-first field order
+// (the same order for two trees of the same shape).
+func astTokens(root interface{}) []token.Token {
+	var out []token.Token
+	tokType := reflect.TypeOf(token.Token{})
+	var rec func(v reflect.Value)
+	rec = func(v reflect.Value) {
+		switch v.Kind() {
+		case reflect.Interface, reflect.Ptr:
+			if !v.IsNil() {
+				rec(v.Elem())
+			}
+		case reflect.Struct:
+			if v.Type() == tokType {
+				out = append(out, v.Interface().(token.Token))
+				return
+			}
+			if v.Type() == reflect.TypeOf(ast.GroupedExpression{}) {
+				// parentheses may be added by the printer: their tokens are not counted
+				rec(v.FieldByName("Expression"))
+				return
+			}
+			for i := 0; i < v.NumField(); i++ {
+				if v.Type().Field(i).IsExported() {
+					rec(v.Field(i))
+				}
+			}
+		case reflect.Slice:
+			for i := 0; i < v.Len(); i++ {
+				rec(v.Index(i))
+			}
+		}
+	}
+	rec(reflect.ValueOf(root))
+	return out
 }
